@@ -155,19 +155,21 @@ func (c *flowCase) withVia(kind int, rng *rand.Rand) *flowCase {
 		d.Via[t] = make([]int, len(c.Deps[t]))
 		for i := range d.Via[t] {
 			if kind == 0 {
-				d.Via[t][i] = 1 + rng.Intn(3)
+				d.Via[t][i] = 1 + rng.Intn(5)
 			} else {
 				d.Via[t][i] = kind
 			}
 		}
 	}
+	// the configuration flag of `cue cmd`: on for the list renderings and for half of the others
+	d.IgnoreConcrete = kind == 4 || kind == 5 || rng.Intn(2) == 0
 	return &d
 }
 
 func checkC18(r *kit.Run) {
 	r.Assumptions = []string{
 		"runners are gated by the harness: a completion order is a sequence of gate releases, each awaited until the controller calls back; the order in which goroutines of one dispatch pass start is not controlled (events sorted)",
-		"dependencies are rendered as direct references, references through a nested non-task field, or through a computed field; latent tasks sit behind `if tK.out != _|_`",
+		"dependencies are rendered as direct references, references through a nested non-task field, through a computed field, or to a list-valued field (directly / through a nested field); flow.Config.IgnoreConcrete is on for the list renderings and half of the others; latent tasks sit behind `if tK.out != _|_`",
 		"service / deferred tasks and ForkRunLoop are outside the model",
 	}
 	rng := rand.New(rand.NewSource(r.Seed))
@@ -215,11 +217,11 @@ func checkC18(r *kit.Run) {
 		var runErr error
 		var jobs []*flowCase
 		for _, c := range g.cases {
-			kinds := []int{1, 0}
+			kinds := []int{1, 4, 0}
 			if r.Thorough() {
-				kinds = []int{1, 2, 3, 0}
+				kinds = []int{1, 2, 3, 4, 5, 0}
 			} else if rng.Intn(2) == 0 {
-				kinds = []int{2 + rng.Intn(2), 0}
+				kinds = []int{2 + rng.Intn(2), 4 + rng.Intn(2), 0}
 			}
 			for _, k := range kinds {
 				jobs = append(jobs, c.withVia(k, rng))
@@ -339,5 +341,5 @@ func checkC18(r *kit.Run) {
 	r.Set("evaluations", totalTraces)
 	r.Set("distinct_nontrivial", totalCases)
 	r.Set("canaries_rejected", caught)
-	r.Set("rule", "workflows = distinct initial states of Flow.tla (all dependency relations on 3 tasks incl. cyclic, all forward DAGs on 4 (thorough: sample of 5) tasks, with latent tasks and one failing task), each rendered with direct / nested-field / computed-field references; every completion order (bounded per workflow) is executed on the real controller with gated runners; every execution is validated by TLC against FlowTrace.tla (state vector at every callback, dependency results seen by each runner, outcome and final configuration); distinct_nontrivial = workflow renderings executed")
+	r.Set("rule", "workflows = distinct initial states of Flow.tla (all dependency relations on 3 tasks incl. cyclic, all forward DAGs on 4 (thorough: sample of 5) tasks, with latent tasks and one failing task), each rendered with direct / nested-field / computed-field / list-valued references, with and without IgnoreConcrete; every completion order (bounded per workflow) is executed on the real controller with gated runners; every execution is validated by TLC against FlowTrace.tla (state vector at every callback, dependency results seen by each runner, outcome and final configuration); distinct_nontrivial = workflow renderings executed")
 }
